@@ -1,8 +1,11 @@
 #!/bin/bash
-# usage: seed_vs_checks.sh <patch.diff> <prop> [<prop>...]: applies the patch to /repo, runs the checks, reverts.
-P="$1"; shift
-cd /repo && git apply "$P" || exit 2
+# usage: seed_vs_checks.sh <patch.diff> <prop> [<prop>...]: applies the patch to /repo, runs the checks, reverts it.
+# Refuses to run when /repo has uncommitted changes (they would be at risk).
+P="$(readlink -f "$1")"; shift
+cd /repo || exit 2
+if [ -n "$(git status --porcelain)" ]; then echo "REFUSED: /repo has uncommitted changes; commit them first"; exit 2; fi
+git apply "$P" || exit 2
 for id in "$@"; do
   ( cd /verif && ./check $id quick > /var/tmp/seedchk_$id.txt 2>&1; echo "check $id exit=$?"; grep -c VIOLATION /var/tmp/seedchk_$id.txt; grep VIOLATION /var/tmp/seedchk_$id.txt | head -4 | cut -c1-250 )
 done
-cd /repo && git checkout -- . 
+cd /repo && git apply -R "$P" && [ -z "$(git status --porcelain)" ] && echo "reverted clean"
